@@ -10,21 +10,118 @@ UNIT = {
     'property': 'C04',
     'rlimit': 60,
     'verus_args': ['--edition=2024'],
+    'controls': 'auto',
     'items': [
+        ('@raw', 'pub mod itax {\n' + MOD_HEAD),
+        ('@file', 'prelude_iter.rs'),
+        ('@raw', '}\n'),
         ('@raw', 'pub mod fp {\n' + MOD_HEAD),
+        ('@broadcast', ['super::itax::axiom_iter_clone', 'super::itax::axiom_into_atom_id']),
         (CI, ['enum PatternChar']),
         ('@raw', 'use PatternChar::*;\n'),
-        (CI, ['impl PatternChar', 'fn char_value']),
+        (CI, ['impl PatternChar', 'fn char_value'], {'ret': 'r', 'ensures': ['r == self.char_value_spec()']}),
         (AST, ['enum BracketAtom']),
         (AST, ['enum BracketItem']),
         (AST, ['struct Bracket']),
         (AST, ['enum Atom']),
         ('@file', 'prelude.rs'),
+        ('@file', 'prelude_ref.rs'),
+        (AST, ['impl<T: Into<BracketAtom>> From<T> for BracketItem', 'fn from'], {'attrs': ['#[verifier::external_body]']}),
         (PARSE, ['fn make_range'], {'rewrites': ['let-chain-last'], 'ensures': [
             '!folds(old(items)@) ==> final(items)@ == old(items)@',
             'folds(old(items)@) ==> final(items)@.len() == old(items)@.len() - 2 && final(items)@.subrange(0, old(items)@.len() - 3) == old(items)@.subrange(0, old(items)@.len() - 3)',
             'folds(old(items)@) ==> final(items)@.last() is Range && final(items)@.last()->Range_0@.start == old(items)@[old(items)@.len() - 3]->Atom_0 && final(items)@.last()->Range_0@.end == old(items)@[old(items)@.len() - 1]->Atom_0',
+            # the same, on the abstract items used by the reference parser
+            'abs_items(final(items)@) =~= fold3(abs_items(old(items)@))',
         ]}),
+        # inner expressions build Strings (collect over chars): outside Verus's subset, contract ASSUMED
+        (PARSE, ['impl BracketAtom', 'fn parse_inner'], {'ret': 'r', 'attrs': ['#[verifier::external_body]'],
+            'requires': ['i.obeys_prophetic_iter_laws()', 'i.decrease() is Some'],
+            'ensures': [
+                'r is None ==> ref_inner(i.remaining()) is None',
+                'r is Some ==> r->Some_0.1.obeys_prophetic_iter_laws() && r->Some_0.1.decrease() is Some && r->Some_0.1.decrease()->0 <= i.decrease()->0',
+                'r is Some ==> exists|n: int| #![trigger i.remaining().skip(n)] 0 < n <= i.remaining().len() && ref_inner(i.remaining()) == Some((r->Some_0.0, n)) && r->Some_0.1.remaining() == i.remaining().skip(n)',
+                'r is Some ==> !(r->Some_0.0 is Char)',
+            ]}),
+        (PARSE, ['impl Bracket', 'fn parse'], {'ret': 'r',
+            'attrs': ['#[verifier::loop_isolation(false)]', '#[verifier::allow_complex_invariants]'],
+            'rewrites': ['or-pattern-guard-split'],
+            'entry_snapshots': ['i'],
+            'needs': ['let mut quoted_hyphen = false ;'],
+            'requires': ['i.obeys_prophetic_iter_laws()', 'i.decrease() is Some'],
+            'ensures': [
+                # the real parser agrees with the reference parser on every sequence of pattern characters
+                'r is None <==> ref_bracket(i.remaining(), rinit()) is None',
+                'r is Some ==> ({ let (st, rest) = ref_bracket(i.remaining(), rinit())->Some_0; r->Some_0.0.complement == st.complement && abs_items(r->Some_0.0.items@) =~= st.items && r->Some_0.1.remaining() == rest })',
+                'r is Some ==> r->Some_0.1.obeys_prophetic_iter_laws() && r->Some_0.1.decrease() is Some && r->Some_0.1.decrease()->0 < i.decrease()->0',
+                'r is Some ==> r->Some_0.1.remaining().len() < i.remaining().len()',
+            ],
+            'loops': {0: {
+                # the `while let` leaves through an implicit break when the characters run out: unclosed bracket
+                'ensures': ['ref_bracket(verif_entry_i.remaining(), rinit()) is None'],
+                'invariant_except_break': [
+                    'i.obeys_prophetic_iter_laws()',
+                    'i.decrease() is Some',
+                    # the reference parser, started where the real one is now with the state the real one holds, gives the final answer
+                    'ref_bracket(i.remaining(), st_of(bracket.complement, bracket.items@, quoted_hyphen)) == ref_bracket(verif_entry_i.remaining(), rinit())',
+                    'i.decrease()->0 <= verif_entry_i.decrease()->0',
+                    'i.remaining().len() <= verif_entry_i.remaining().len()',
+                ],
+                'decreases': ['i.decrease()->0'],
+                'body_start': 'let ghost verif_items0 = bracket.items@; let ghost verif_c0 = bracket.complement; let ghost verif_q0 = quoted_hyphen;',
+                'body_end': 'proof { lemma_member_all(verif_c0, verif_items0, verif_q0, pc == PatternChar::Normal(\'-\'), quoted_hyphen, bracket.items@); }',
+            }},
+            # Alternative annotation set for a parser that keeps no "last item is a quoted hyphen" flag (the code before
+            # the fix of finding F2): same contract, the invariant says the flag is always false.  On such code the
+            # invariant cannot be re-established after a quoted hyphen, which is finding F2.
+            'alt': [{
+                'needs': ['make_range ( & mut bracket . items )'],
+                'loops': {0: {
+                    'ensures': ['ref_bracket(verif_entry_i.remaining(), rinit()) is None'],
+                    'invariant_except_break': [
+                        'i.obeys_prophetic_iter_laws()',
+                        'i.decrease() is Some',
+                        'ref_bracket(i.remaining(), st_of(bracket.complement, bracket.items@, false)) == ref_bracket(verif_entry_i.remaining(), rinit())',
+                        'i.decrease()->0 <= verif_entry_i.decrease()->0',
+                    'i.remaining().len() <= verif_entry_i.remaining().len()',
+                    ],
+                    'decreases': ['i.decrease()->0'],
+                    'body_start': 'let ghost verif_items0 = bracket.items@; let ghost verif_c0 = bracket.complement;',
+                    'body_end': 'proof { lemma_member_all(verif_c0, verif_items0, false, pc == PatternChar::Normal(\'-\'), false, bracket.items@); }',
+                }},
+            }],
+        }),
+        (PARSE, ['impl Atom', 'fn parse'], {'ret': 'r',
+            'requires': ['i.obeys_prophetic_iter_laws()', 'i.decrease() is Some'],
+            'ensures': [
+                'r is None <==> ref_atom(i.remaining()) is None',
+                'r is Some ==> atom_is(r->Some_0.0, ref_atom(i.remaining())->Some_0.0) && r->Some_0.1.remaining() == ref_atom(i.remaining())->Some_0.1',
+                'r is Some ==> r->Some_0.1.obeys_prophetic_iter_laws() && r->Some_0.1.decrease() is Some && r->Some_0.1.decrease()->0 < i.decrease()->0',
+                'r is Some ==> r->Some_0.1.remaining().len() < i.remaining().len()',
+            ],
+            'closures': {0: {'rewrite': 'option-map-to-match'}}}),
+        (AST, ['struct Ast'], {'drop_derives': True}),
+        # the nested fn of Ast::new (Ast::new itself only converts its argument with into_iter); checked as an associated fn
+        (AST, ['impl Ast', 'fn new', 'fn inner'], {'ret': 'r', 'wrapper': 'impl Ast',
+            'attrs': ['#[verifier::loop_isolation(false)]', '#[verifier::allow_complex_invariants]'],
+            'entry_snapshots': ['i'],
+            'requires': ['i.obeys_prophetic_iter_laws()', 'i.decrease() is Some'],
+            'ensures': ['atoms_are(r.atoms@, ref_atoms(i.remaining()))'],
+            'loops': {0: {
+                'ensures': ['atoms_are(atoms@, ref_atoms(verif_entry_i.remaining()))'],
+                'invariant_except_break': [
+                    'i.obeys_prophetic_iter_laws()',
+                    'i.decrease() is Some',
+                    # what has been parsed so far is the beginning of the reference answer, and the reference parser makes
+                    # the rest of the answer out of the rest of the input
+                    'atoms@.len() <= ref_atoms(verif_entry_i.remaining()).len()',
+                    'forall|k: int| 0 <= k < atoms@.len() ==> atom_is(#[trigger] atoms@[k], ref_atoms(verif_entry_i.remaining())[k])',
+                    'ref_atoms(verif_entry_i.remaining()).skip(atoms@.len() as int) =~= ref_atoms(i.remaining())',
+                ],
+                'body_end': 'proof { let ea = ref_atoms(verif_entry_i.remaining()); let n = atoms@.len() - 1; assert(ea.skip(n + 1) =~= ea.skip(n).skip(1)); assert(ea[n] == ea.skip(n)[0]); }',
+                'decreases': ['i.decrease()->0'],
+            }},
+        }),
         ('@raw', '}\n'),
     ],
 }
